@@ -27,6 +27,9 @@ def run(res, only=None):
     # product laws (M*v = sum v[c]*col(c), (A*B)*v = A*(B*v), affine point/vector) on the integer lattice
     from . import p_c03
     p_c03.linalg_cases(res, cfgs, only_kinds="conv")
+    # code -> spec: M*v = sum v[c]*col(c) and transform_point = linear*p + translation on arbitrary real entries (Trace_Poly.tla)
+    core.record_and_validate(res, "poly", [c for c in cfgs if c != "sse2-rel"], draws=6 if res.tier == "quick" else 200, module="Trace_Poly",
+                             chunks=1 if res.tier == "quick" else 8, expect_kinds=("poly",), ops=["mul_vec", "affine_point"])
     res.exhaustive = True
     res.rule = ("token machine: for each of the 5 shapes (2x2, 3x3, 4x4, affine 2x3, affine 3x4) all two-step behaviours "
                 "over {6 constructors, from_diagonal, 3 constants, 3 write paths x every (r,c) x 2 tokens, 11 read paths} from "
@@ -38,4 +41,4 @@ def run(res, only=None):
 def replay(res, path, only=None):
     import json
     mm = json.load(open(path))
-    return core.generic_replay(res, path, "lin" if mm.get("case", {}).get("fam") == "lin" else "tok")
+    return core.replay_dispatch(res, path, "lin" if mm.get("case", {}).get("fam") == "lin" else "tok")
